@@ -5,6 +5,7 @@ Usage: `drv_c17 lnwallet|chancloser < trace`.
 -/
 import LndModel.Prelude.Lines
 import LndModel.C17.Model
+import LndModel.C17.DriverSched
 
 open LndModel LndModel.Lines LndModel.C17
 
@@ -846,6 +847,9 @@ end LndModel.C17.Driver
 
 open LndModel.C17.Driver in
 def main (args : List String) : IO Unit := do
+  if args.headD "" == "sched" then
+    LndModel.C17.DriverSched.mainSched
+    return
   let s ← LndModel.Lines.foldStdin step { stream := args.headD "" }
   IO.println s!"STAT lines={s.lines}"
   IO.println s!"STAT cases={s.cases}"
